@@ -260,7 +260,8 @@ def make_download(rng, o, payload, mode, size_ind, opts):
     if mode == "exp":
         return RC.run(RC.download_expedited, o.idx, o.sub, payload, size_ind)
     if mode == "seg":
-        return RC.run(RC.download_segmented, o.idx, o.sub, payload, size_ind, fill_rng=rng if opts.get("fill") else None)
+        return RC.run(RC.download_segmented, o.idx, o.sub, payload, size_ind, fill_rng=rng if opts.get("fill") else None,
+                      segbytes=opts.get("segbytes", 7), n0_last=opts.get("n0_last", False))
     return RC.run(RC.download_block, o.idx, o.sub, payload, size_ind, crc=opts.get("crc", False),
                   lose=lose_fn(rng, opts.get("lose", "none")), pad_rng=rng if opts.get("fill") else None)
 
@@ -285,6 +286,10 @@ def choose_download(rng, world, big=True):
         mode = rng.choice(["seg", "blk", "blk"]) if ln > 4 else rng.choice(["exp", "seg", "blk"])
     size_ind = rng.random() < 0.7
     opts = {"fill": rng.random() < 0.5}
+    if mode == "seg":
+        # segments need not be full, and a client that indicated the size may leave n = 0 in the last segment
+        opts["segbytes"] = rng.choice([7, 7, 7, 7, 4, 1, 2, 3, 5, 6])
+        opts["n0_last"] = size_ind and rng.random() < 0.2
     if mode == "blk":
         opts["crc"] = rng.random() < 0.3
         opts["lose"] = rng.choice(["none", "none", "first", "middle", "secondlast", "several", "all-but-last"])
